@@ -40,6 +40,9 @@ class Run:
                 msg = f"{cls.name}.{op}: {n}"
                 if msg not in self.imprecise:
                     self.imprecise.append(msg)
+            if len(ps) > 2500:
+                # the rules compare the paths of the four operations pairwise: beyond this the comparison itself does not end in useful time
+                raise AnalysisError(f"{cls.name}.{op}: {len(ps)} paths (path explosion) — no verdict")
             self._facts[k] = ps
             self.paths_total += len(ps)
         return self._facts[k]
